@@ -89,6 +89,8 @@ var branchSets = []branchSet{
 	{"empty", "", "", "", ""},
 	{"multibyte", "└─🌿", "　　", "├─🍃", "┃　"},
 	{"distinct", "L", "l", "M", "m"},
+	{"empty-connectors", "", "a", "", "b"},  // connectors empty, continuation strings differ
+	{"overlapping", "|", "| ", "|-", "|  "}, // a connector that also occurs inside the continuation strings
 }
 
 // Concs returns n concretisations chosen by seed; the first is always plain ASCII chunks with the
